@@ -181,7 +181,8 @@ def run_e1(pid, modules, jobs=None):
     from .source import RepoIndex
     import contracts.schema as schema
     all_contracts = load_contracts(modules)
-    contracts = [c for c in all_contracts if pid in c.props]
+    tier = os.environ.get("VERIF_TIER_EFFECTIVE", "quick")
+    contracts = [c for c in all_contracts if pid in c.props and (c.tier == "quick" or tier == "thorough")]
     idx = RepoIndex(repo_path())
     idx.load_all()
     _CTX.update(contracts=contracts, index=idx, schema=schema)
